@@ -50,7 +50,7 @@ func (s *sessionManager) join(message *Message, activeChan chan<- *ActiveMessage
 	defer close(ch)
 	s.operationFuncChan <- func(record map[string]*session) {
 		if v, ok := record[key]; ok {
-			verifAt(nil, "M.join.refused", key)
+			verifAt(nil, "M.join.refused", key, activeChan)
 			ch <- errors.Join(fmt.Errorf("key[%s] join time[%s]",
 				key, v.joinTime.Format(time.RFC3339)), _errKeyExist)
 			return
@@ -60,7 +60,7 @@ func (s *sessionManager) join(message *Message, activeChan chan<- *ActiveMessage
 			joinTime:      time.Now(),
 			activeMsgChan: activeChan,
 		}
-		verifAt(nil, "M.join.ok", key, len(record))
+		verifAt(nil, "M.join.ok", key, activeChan, len(record))
 		ch <- nil
 	}
 	return key, <-ch
@@ -87,7 +87,7 @@ func (s *sessionManager) write(activeMsg *ActiveMessage) *Message {
 		if v, ok := record[key]; ok {
 			activeMsg.header = v.header
 			activeMsg.replyChan = replyChan
-			verifAt(nil, "M.route.before", key)
+			verifAt(nil, "M.route.before", key, activeMsg)
 			select {
 			case v.activeMsgChan <- activeMsg:
 			default:
@@ -98,7 +98,7 @@ func (s *sessionManager) write(activeMsg *ActiveMessage) *Message {
 			verifAt(nil, "M.route.after", key)
 			return
 		}
-		verifAt(nil, "M.route.notexist", key)
+		verifAt(nil, "M.route.notexist", key, activeMsg)
 		replyChan <- newErrMessage(errors.Join(ErrNotExistKey,
 			fmt.Errorf("key=[%s] sum=[%d] ", key, len(record))))
 	}
